@@ -346,7 +346,7 @@ pub fn finish(
         "counters": tally.counters,
         "components": meta.components,
         "known_findings_hit": known_hits,
-        "simulated_time_note": "the code under test has no timers; simulated time is reported as scheduler steps (counters.sched_steps)",
+        "simulated_time_note": "the code under test has no timers or deadlines; where it reads the clock (the planners measure themselves) it reads the simulated clock, which advances per scheduling decision and per read and can leap (counters.simulated_time_us, clock_reads, fault_clock_leap_fired); otherwise simulated time is the number of scheduler steps (counters.sched_steps)",
     });
     if tally.samples.is_empty() {
         coverage["samples"] = json!([{"note": "no sample recorded"}]);
